@@ -2,6 +2,7 @@ package tk
 
 import (
 	"fmt"
+	"math"
 	"strings"
 
 	"github.com/bradenaw/juniper/container/tree"
@@ -113,10 +114,41 @@ func IntCmpMap(counted bool) Config[int, int] {
 	}
 }
 
+// extremeMag is a three-way compare of ints whose results range over everything a compare function
+// may return: -1/+1, scaled differences, and the extremes math.MinInt / math.MaxInt (negating
+// MinInt gives MinInt again), chosen by the pair of arguments so that the function stays pure.
+func extremeMag(a, b int) int {
+	if a == b {
+		return 0
+	}
+	k := (a*31 + b*17) % 4
+	if k < 0 {
+		k = -k
+	}
+	if a < b {
+		switch k {
+		case 0:
+			return math.MinInt
+		case 1:
+			return -1
+		case 2:
+			return math.MinInt + 1
+		}
+		return (a - b) * 1000003
+	}
+	switch k {
+	case 0:
+		return math.MaxInt
+	case 1:
+		return 1
+	}
+	return (a - b) * 1000003
+}
+
 // IntMagCmpMap: a compare function returning arbitrary magnitudes (a-b scaled).
 func IntMagCmpMap(counted bool) Config[int, string] {
 	c := ctr(counted)
-	cmp := counting2(func(a, b int) int { return (a - b) * 1000003 }, c)
+	cmp := counting2(func(a, b int) int { return extremeMag(a, b) }, c)
 	return Config[int, string]{
 		Name: "map[int]string/NewMapCmp(a-b magnitudes)", KeyOf: ident, Class: ident,
 		Cmp:   func(a, b int) int { return sign(a - b) },
@@ -219,7 +251,7 @@ func IntLessSet(counted bool) Config[int, struct{}] {
 // IntCmpSet: tree.NewSetCmp with magnitudes, reversed.
 func IntCmpSetReversed(counted bool) Config[int, struct{}] {
 	c := ctr(counted)
-	cmp := counting2(func(a, b int) int { return (b - a) * 7 }, c)
+	cmp := counting2(func(a, b int) int { return extremeMag(b, a) }, c)
 	return Config[int, struct{}]{
 		Name: "set[int]/NewSetCmp(reversed magnitudes)", KeyOf: ident, Class: ident, Reversed: true,
 		Cmp:   func(a, b int) int { return sign(b - a) },
